@@ -100,6 +100,10 @@ def configs(tier):
         for k in range(1, nres):
             for m in range(1, nres - k + 1):
                 yield dict(sys=sysd, kind="c+mc", k=k, m=m, res=None, ign=None)
+        # ... and the centre file shorter than the atom-level one: it lists only the first j < k residues
+        for k in range(2, nres + 1):
+            for j in range(1, k):
+                yield dict(sys=sysd, kind="c+mc", k=k, m=0, mc_upto=j, res=None, ign=None)
     # ignored molecule type at first / middle / last position, fully supplied with coordinates
     for mols in ([("W", 2), ("CH3", 1), ("CH2", 1)], [("CH3", 1), ("W", 2), ("CH2", 1)], [("CH3", 1), ("CH2", 1), ("W", 2)]):
         types = sorted({n for n, _ in mols})
@@ -159,8 +163,9 @@ def materialise(cfg):
                     in_coords.append(tuple(atoms[(mi, r, an)]))
                 # the centre file is read from the first residue again: it lists the atom-level residues too, with the
                 # centre of the supplied atoms
-                mc_atoms.append((resid_of(sysd, name, r), resname, names[0]))
-                mc_coords.append(tuple(np.round(np.mean([atoms[(mi, r, an)] for an in names], axis=0), 3)))
+                if cfg.get("mc_upto") is None or i < cfg["mc_upto"]:
+                    mc_atoms.append((resid_of(sysd, name, r), resname, names[0]))
+                    mc_coords.append(tuple(np.round(np.mean([atoms[(mi, r, an)] for an in names], axis=0), 3)))
             else:
                 mc_atoms.append((resid_of(sysd, name, r), resname, names[0]))
                 mc_coords.append(tuple(centres[(mi, r)]))
@@ -198,7 +203,7 @@ def judge(cfg, sysd, exp, res, choices):
 
     def bad(assertion, msg, t=()):
         if len(viols) < 12:
-            viols.append(dict(assertion=assertion, tags=sorted(set(tags) | set(t)), message=msg + f" | cfg={json.dumps({k: cfg[k] for k in ('kind', 'k', 'res', 'ign') if k in cfg})} mols={cfg['sys']['molecules']} choices={choices}",
+            viols.append(dict(assertion=assertion, tags=sorted(set(tags) | set(t)), message=msg + f" | cfg={json.dumps({k: cfg[k] for k in ('kind', 'k', 'm', 'mc_upto', 'res', 'ign') if k in cfg})} mols={cfg['sys']['molecules']} choices={choices}",
                               case=case1, detail={}))
     if res["divergence"]:
         bad("harness-replay-divergence", res["divergence"], ["harness"])
